@@ -132,6 +132,10 @@ def law_sweep(ctx, sc):
         t = y[np.abs(y) > 1e-3]
         if t.size:
             p = float(rng.uniform(0, 80))
+            # the same truth values at their own magnitude and, on every third case, at a very small / very large one (an exact
+            # power of two: the relative errors are bit for bit the same) -- trace-gas magnitudes must not be floored or clipped
+            t_unit = t
+            t = t * float([1.0, 2.0 ** -40, 2.0 ** 60][k % 3])
             for shape_t in ((t.size,), (t.size, 1)):
                 for shape_p in ((t.size,), (t.size, 1)):
                     tt = t.reshape(shape_t)
@@ -145,7 +149,8 @@ def law_sweep(ctx, sc):
                             bad("score:" + name.split("(")[0] + "-offset", f"{name} = {got!r}, expected {want!r} (truth shape {shape_t}, prediction shape {shape_p})", case2)
             perm = rng.permutation(t.size)
             pr = t * (1 + rng.uniform(-0.3, 0.3, t.size))
-            s = float(rng.choice([-3.0, 0.01, 1e4]))
+            t = t_unit
+            s = float(rng.choice([-3.0, 0.01, 1e4, 2.0 ** -40, 1e-12, 2.0 ** 80]))
             for fn in (sc.mape, sc.bias):
                 a = fn(pr, t)
                 if not abs(fn(pr[perm], t[perm]) - a) <= 1e-9 * (1 + abs(a)):
